@@ -656,15 +656,19 @@ func (t *Target) gnmiRemove(n *pb.Notification) []*ctree.Leaf {
 		t.meta.ResetEntry(path[1])
 	}
 	var leaves []*ctree.Leaf
+	var deleted int64
 	f := func(v interface{}) {
 		d := v.(*pb.Notification)
 		leaves = append(leaves, ctree.DetachedLeaf(toDeleteNotification(d, n.GetTimestamp())))
+		// Leaves of the meta subtree were never counted when added.
+		if first, ok := firstIndex(d.GetPrefix(), d.GetUpdate()[0].GetPath()); !ok || first != metadata.Root {
+			deleted++
+		}
 	}
 	t.t.WalkDeleted(path, func(v interface{}) bool { return v.(*pb.Notification).GetTimestamp() < n.GetTimestamp() }, f)
 	if len(leaves) == 0 {
 		return nil
 	}
-	deleted := int64(len(leaves))
 	t.meta.AddInt(metadata.LeafCount, -deleted)
 	t.meta.AddInt(metadata.DelCount, deleted)
 	return leaves
